@@ -366,6 +366,51 @@ fn expansion_size(c: &Case) -> u64 {
     go(c, 0, &mut size, 0)
 }
 
+fn expansion_size_rec(c: &Case) -> u64 {
+    let n = c.nodes.len();
+    // strong-only subtree sizes (the strong edges of every kind form a DAG)
+    fn strong(c: &Case, i: usize, memo: &mut Vec<u64>, depth: usize) -> u64 {
+        if memo[i] != 0 {
+            return memo[i];
+        }
+        if depth > 200 {
+            return u64::MAX / 4;
+        }
+        let mut s = 1u64;
+        for e in &c.nodes[i].strong {
+            s = s.saturating_add(strong(c, e.to, memo, depth + 1));
+        }
+        memo[i] = s.min(u64::MAX / 4);
+        memo[i]
+    }
+    let mut memo = vec![0u64; n];
+    for i in 0..n {
+        strong(c, i, &mut memo, 0);
+    }
+    // with the links: a link adds (at most) its target's strong subtree where it stands
+    fn full(c: &Case, i: usize, st: &Vec<u64>, memo: &mut Vec<u64>, depth: usize) -> u64 {
+        if memo[i] != 0 {
+            return memo[i];
+        }
+        if depth > 200 {
+            return u64::MAX / 4;
+        }
+        let mut s = 1u64;
+        for e in &c.nodes[i].strong {
+            s = s.saturating_add(full(c, e.to, st, memo, depth + 1));
+        }
+        for w in &c.nodes[i].weak {
+            if let Some(t) = w.to {
+                s = s.saturating_add(st[t]);
+            }
+        }
+        memo[i] = s.min(u64::MAX / 4);
+        memo[i]
+    }
+    let mut memo2 = vec![0u64; n];
+    full(c, 0, &memo, &mut memo2, 0)
+}
+
 // ------------------------------------------------------------------------------------------
 // plain mirror (no wrappers): the tree expansion
 
@@ -1737,6 +1782,12 @@ impl Property for C14 {
         // budget (250 000 YAML nodes, ~10 per allocation) is not a document the default options
         // accept - found by the thorough tier's `random-large` family
         if !c.kind.is_rec() && expansion_size(c) > 10_000 {
+            return Outcome::Discard("expansion beyond the default budget");
+        }
+        // (recursive kinds: every strong occurrence after the first and every link to a node
+        // that is already complete is an alias that is replayed; links may form cycles, so the
+        // estimate takes the strong edges - acyclic - and adds a link's target once)
+        if c.kind.is_rec() && expansion_size_rec(c) > 10_000 {
             return Outcome::Discard("expansion beyond the default budget");
         }
         let r = match c.kind {
